@@ -113,6 +113,8 @@ MUTANTS = [
     ("c05-memory3-closed", "C05", R + "fkm_nonlinear.py",
      "        _is_closed_hysteresis.append(False)             # the hysteresis is not fully closed",
      "        _is_closed_hysteresis.append(True)             # the hysteresis is not fully closed"),
+    ("c04-revert-named-series", "C04", R + "fkm_nonlinear.py",
+     '.set_index(["load_step", "node_id"]).iloc[:, 0]', '.set_index(["load_step", "node_id"])[0]'),
     ("c04-plateau-not-looked-through", "C04", R + "fkm_nonlinear.py",
      "        different_before = np.flatnonzero(samples != last)\n",
      "        different_before = np.flatnonzero(samples != last)\n        if len(samples) > 1 and samples[-2] == last:\n            return False\n"),
